@@ -372,9 +372,9 @@ class MetaFile:
         self.meta["info"]["piece length"] = self.piece_length
 
         self.meta_version = meta_version
-        parent, self.name = os.path.split(self.path)
-        if not self.name:
-            self.name = os.path.basename(parent)
+        # the name is the last component of the normalized path, so that
+        # "content/", "content/." or "." name the directory itself.
+        self.name = os.path.basename(os.path.abspath(self.path))
         self.meta["info"]["name"] = self.name
 
     def assemble(self):
